@@ -119,6 +119,12 @@ class Reader:
             raise ParseError("eos")
         return self.d[p]
 
+    def peekint(self, p):
+        n0 = len(self.fields)
+        v, _ = self.readint(p, None)
+        del self.fields[n0:]
+        return v
+
     def readint(self, p, role, ctx=None):
         b = self.byte(p)
         if b < 128:
@@ -257,12 +263,31 @@ class Reader:
     def funcenv(self, p):
         if self.byte(p) == LB_FUNCENV_REF:
             self.fields.append(Field(p, 1, "lead", "envref.lead", LB_FUNCENV_REF))
-            _, q = self.readint(p + 1, "envref.index", {"nenvs": self.nenvs})
+            idx, q = self.readint(p + 1, "envref.index", {"nenvs": self.nenvs})
+            f = self.fields[-1]
+            f.ctx["site"] = (p, q)
+            rec = getattr(self, "env_records", {}).get(idx)
+            if rec:
+                f.ctx["onstack"] = rec       # geometry + fiber of the referenced environment
             return q
+        if not hasattr(self, "env_records"):
+            self.env_records = {}
+        my_index = self.nenvs
         self.nenvs += 1
         off, q = self.readint(p, "env.offset")
         ln, q = self.readint(q, "env.length")
         if off > 0:
+            lead = self.byte(q)
+            fib_idx = None
+            if lead == LB_FIBER:
+                fib_idx = len(self.lookup)
+            elif lead == LB_REFERENCE:
+                try:
+                    fib_idx = self.peekint(q + 1)
+                except Exception:
+                    fib_idx = None
+            if fib_idx is not None:
+                self.env_records[my_index] = {"offset": off, "length": ln, "fiber": fib_idx}
             _, q = self.one(q, "env.fiber")
         else:
             for _ in range(ln):
@@ -325,6 +350,7 @@ class Reader:
         return q
 
     def fiber(self, p):
+        my_fiber = len(self.lookup)
         self.lookup.append(("fiber",))
         flags, q = self.readint(p, "fiber.flags")
         frame, q = self.readint(q, "fiber.frame")
@@ -341,7 +367,13 @@ class Reader:
             _, q = self.readint(q, "frame.pc")
             _, q = self.one(q, "frame.func")
             if fflags & (1 << 31) or fflags < 0:
+                # the frame's own environment: remember where it sits and what geometry the frame has, for the
+                # mutation "this frame claims an on-stack environment of another fiber"
+                others = [i for i, d_ in enumerate(self.lookup) if d_ == ("fiber",) and i != my_fiber]
+                q0 = q
                 q = self.funcenv(q)
+                self.fields.append(Field(q0, 0, "site", "frameenv.site", None,
+                                         {"site": (q0, q), "stack": stack, "slots": top - stack, "fiber": my_fiber, "others": others}))
             for _ in range(stack, top):
                 _, q = self.one(q, "frame.slot")
             top = stack - FRAME_SIZE
@@ -656,6 +688,8 @@ def field_weight(f):
 
 
 def is_hot(f):
+    if f.role == "frameenv.site":
+        return bool(f.ctx.get("others"))
     return f.role in HOT1 or f.role in HOT2 or hot_instr(f) or f.enc == "real" or f.role == "peg.rule"
 
 
